@@ -98,17 +98,29 @@ func stringToInt(ss string) (int64, error) {
 	if ss == "-0" {
 		return 0, strconv.ErrSyntax
 	}
-	if len(ss) > 2 {
-		switch ss[:2] {
-		case "0x", "0X":
-			return strconv.ParseInt(ss[2:], 16, 64)
-		case "0b", "0B":
-			return strconv.ParseInt(ss[2:], 2, 64)
-		case "0o", "0O":
-			return strconv.ParseInt(ss[2:], 8, 64)
+	if base := radixPrefix(ss); base != 0 {
+		if ss[2] == '+' || ss[2] == '-' {
+			// NonDecimalIntegerLiteral has no sign
+			return 0, strconv.ErrSyntax
 		}
+		return strconv.ParseInt(ss[2:], base, 64)
 	}
 	return strconv.ParseInt(ss, 10, 64)
+}
+
+// radixPrefix returns the base of a 0x / 0b / 0o literal that has at least one more character, 0 otherwise.
+func radixPrefix(ss string) int {
+	if len(ss) > 2 && ss[0] == '0' {
+		switch ss[1] {
+		case 'x', 'X':
+			return 16
+		case 'b', 'B':
+			return 2
+		case 'o', 'O':
+			return 8
+		}
+	}
+	return 0
 }
 
 func (s asciiString) _toInt(trimmed string) (int64, error) {
@@ -134,6 +146,19 @@ func (s asciiString) _toFloat(trimmed string) (float64, error) {
 	// Go allows underscores in numbers, when parsed as floats, but ECMAScript expect them to be interpreted as NaN.
 	if strings.ContainsRune(trimmed, '_') {
 		return 0, strconv.ErrSyntax
+	}
+
+	if base := radixPrefix(trimmed); base != 0 {
+		// a non-decimal integer literal too long for an int64: its mathematical value, rounded
+		if trimmed[2] == '+' || trimmed[2] == '-' {
+			return 0, strconv.ErrSyntax
+		}
+		n, ok := new(big.Int).SetString(trimmed[2:], base)
+		if !ok {
+			return 0, strconv.ErrSyntax
+		}
+		f, _ := new(big.Float).SetInt(n).Float64()
+		return f, nil
 	}
 
 	// Hexadecimal floats are not supported by ECMAScript.
